@@ -263,6 +263,28 @@ pub fn exec(out: &mut Out, st: &mut St, line: &str) -> (String, bool) {
                 Err(_) => ("panic".into(), false),
             }
         }
+        "del" => {
+            // remove_cell before the export: the loop bounds come from the ordered indexes, which a
+            // removal must keep in step with the map
+            let s: usize = a[2].parse().unwrap();
+            let r: u32 = a[3].parse().unwrap();
+            let c: u32 = a[4].parse().unwrap();
+            let res = guard(|| match st.book.get_sheet_mut(&s) {
+                Some(ws) => {
+                    ws.remove_cell((c, r));
+                    true
+                }
+                None => false,
+            });
+            match res {
+                Ok(true) => {
+                    st.shadow[s].remove(&(r, c));
+                    ("ok".into(), false)
+                }
+                Ok(false) => ("nosheet".into(), false),
+                Err(_) => ("panic".into(), false),
+            }
+        }
         "csv" | "csvfile" => {
             let enc = a[2];
             let trim = a[3] == "1";
@@ -484,6 +506,23 @@ fn gen_case(rng: &mut Rng, v: &mut Vec<String>, idx: u64) {
         let val = rand_value(rng, focus);
         v.push(format!("c20 set {} {} {} {}", s, r, c, hex(&val)));
         sh.sheets[s].insert((r, c), val);
+    }
+    // removals (often of the right-most / bottom-most cells: they decide the loop bounds)
+    if rng.chance(1, 2) {
+        for _ in 0..rng.range(1, 3) {
+            let s = rng.below(nsh) as usize;
+            let keys: Vec<(u32, u32)> = sh.sheets[s].keys().copied().collect();
+            if keys.is_empty() {
+                continue;
+            }
+            let k = if rng.chance(1, 2) {
+                *keys.iter().max_by_key(|k| (k.1, k.0)).unwrap()
+            } else {
+                *rng.pick(&keys)
+            };
+            v.push(format!("c20 del {} {} {}", s, k.0, k.1));
+            sh.sheets[s].remove(&k);
+        }
     }
     if rng.chance(1, 25) {
         v.push(format!("c20 set {} 1 1 {}", nsh + rng.below(2), hex("x"))); // no such sheet
